@@ -23,6 +23,8 @@ pub struct RawEncoder {
     pub bs: (usize, usize),
     /// write the payload in several put_slice calls (exercises EncodeBuf growth)
     pub piecewise: bool,
+    /// hands the message over as one non-contiguous `Buf` (`BufMut::put(head.chain(tail))`)
+    pub chained: bool,
 }
 #[derive(Clone, Copy, Debug)]
 pub struct RawDecoder {
@@ -33,7 +35,11 @@ impl Encoder for RawEncoder {
     type Item = Vec<u8>;
     type Error = Status;
     fn encode(&mut self, item: Vec<u8>, dst: &mut EncodeBuf<'_>) -> Result<(), Status> {
-        if self.piecewise {
+        if self.chained && item.len() >= 2 {
+            let (a, rest) = item.split_at(item.len() / 3);
+            let (b, c) = rest.split_at(rest.len() / 2);
+            dst.put(a.chain(b).chain(c));
+        } else if self.piecewise {
             for c in item.chunks(7) {
                 dst.put_slice(c);
             }
@@ -94,7 +100,7 @@ impl Codec for RawCodec {
     type Encoder = RawEncoder;
     type Decoder = RawDecoder;
     fn encoder(&mut self) -> RawEncoder {
-        RawEncoder { bs: self.bs, piecewise: false }
+        RawEncoder { bs: self.bs, piecewise: false, chained: false }
     }
     fn decoder(&mut self) -> RawDecoder {
         RawDecoder { bs: self.bs }
